@@ -206,6 +206,7 @@ func (e *Engine) VerifyFunction(fn *ssa.Function) (ctx *FnCtx, err error) {
 	ts := e.ts
 	fr := ctx.newFrame(fn)
 	fr.isTop = true
+	ctx.curTopFrame = fr
 	st := &State{pc: ts.Bool(true), cells: map[*Cell]*Term{}, heaps: map[string]*Term{}}
 	st.wm = ts.Named("wm!entry", SInt)
 	ctx.addFact(st, ts.Gt(st.wm, ts.Int(0)))
